@@ -304,6 +304,9 @@ def c13(tier, seed):
         # only what the configuration mentions changes, at every depth, lists by the active policy
         MC("Gen_GenericMerge", dict(Groups="={}"), invariants=["OnlyMentioned", "AppendKeepsAll"], label="MC_GenericMerge/only-mentioned"),
         GEN("Gen_GenericMerge", {}, "generic", label="Gen_GenericMerge/prefilled-x-settings-x-policies", min_cases=50),
+        # direction B: random struct types; the packed configuration with random top-level settings removed is unpacked into a
+        # target pre-filled with a second random value - TLC computes what must have changed (Trace_Pack.Ov) and what must not
+        pack_trace(tier),
     ]
 
 
